@@ -127,17 +127,22 @@ def main():
             if kind_op == "reorder" or rng.random() < 0.3:
                 groups = groups[::-1]
             cplx = rng.random() < 0.3
+            forced = {1: "real-first", 3: "complex-first"}.get(op) if h % 2 == 0 else None   # mixed real / complex groups in both orders
+            if forced:
+                cplx = True
             d = {}
             for gi, g in enumerate(groups):
                 nd = g.nPe * dof_n
                 slots = []
                 for s in range(4):
-                    present = rng.random() < (0.8 if g.dim == mesh.dim else 0.5)
+                    present = rng.random() < (0.8 if g.dim == mesh.dim else 0.5) or bool(forced)
                     if not present or g.Ne == 0:
                         slots.append(None)
                         continue
                     # a group may be real while another is complex
                     c = cplx and (rng.random() < 0.6)
+                    if forced:
+                        c = (gi > 0) if forced == "real-first" else (gi == 0)
                     slots.append(rand_array(rng, (g.Ne, nd, nd) if s < 3 else (g.Ne, nd, 1), c))
                 d[g] = tuple(slots)
             if all(all(s is None for s in v) for v in d.values()):
@@ -183,6 +188,40 @@ def main():
                         inv = "error: " + repr(ex)
                     expect.append((ident, s, ncol, keys, inv, Ac.data.astype(complex)))
         res.sample(dict(history=h, sim=kind, elemType=et, ops=history))
+
+    # ---------- a system large enough for row * Ndof + col to exceed 2^31 (Ndof > 46340) ----------
+    try:
+        import scipy.sparse as _sp
+        nx = 161                                     # 161 x 161 nodes, 2 dofs per node: Ndof = 51842
+        xs_, ys_ = np.meshgrid(np.linspace(0, 4, nx), np.linspace(0, 4, nx), indexing="ij")
+        coordL = np.c_[xs_.ravel(), ys_.ravel(), np.zeros(nx * nx)]
+        idx = np.arange(nx * nx).reshape(nx, nx)
+        a_, b_, c_, d_ = idx[:-1, :-1].ravel(), idx[1:, :-1].ravel(), idx[1:, 1:].ravel(), idx[:-1, 1:].ravel()
+        connL = np.vstack([np.c_[a_, b_, c_], np.c_[a_, c_, d_]])
+        meshL = Mesh({ElemType.TRI3: GroupElemFactory.Create(ElemType.TRI3, connL, coordL)})
+        simL = Simulations.Elastic(meshL, Models.Elastic.Isotropic(2, E=1.0, v=0.25))
+        simL.rho = 1.0
+        K_L, _, M_L, _ = simL.Get_K_C_M_F()
+        gL = meshL.groupElem
+        loc = simL.Construct_local_matrix_system(simL.problemType)[gL]
+        dofsL = (np.asarray(gL.connect, dtype=np.int64)[:, :, None] * 2 + np.arange(2, dtype=np.int64)).reshape(gL.Ne, -1)
+        rowsL = np.repeat(dofsL, dofsL.shape[1], axis=1).ravel()
+        colsL = np.tile(dofsL, (1, dofsL.shape[1])).ravel()
+        NdofL = meshL.Nn * 2
+        res.case(("large-system",))
+        res.count("large-system")
+        for nm, got, Ke in (("K", K_L, loc[0]), ("M", M_L, loc[2])):
+            if Ke is None:
+                continue
+            ref = _sp.coo_matrix((np.asarray(Ke).ravel(), (rowsL, colsL)), shape=(NdofL, NdofL)).tocsr()
+            dif = abs(got.tocsr() - ref)
+            md = dif.max() if dif.nnz else 0.0
+            if md > 1e-9 * (1 + abs(ref).max()):
+                badrows = np.unique(dif.tocoo().row[dif.tocoo().data > 1e-9 * (1 + abs(ref).max())])
+                res.fail(f"assembly of a large system slot={nm}", f"Ndof = {NdofL} (Ndof^2 > 2^31): {nm} differs from the scatter-add by {md:.3e} on {len(badrows)} rows (first {int(badrows[0])})",
+                         dict(elemType="TRI3", Nn=int(meshL.Nn), Ndof=int(NdofL)))
+    except MemoryError:
+        res.notes.append("large-system check skipped: not enough memory")
 
     # ---------- renumbering of a real problem ----------
     for rep in range(2 if args.tier == "quick" else 6):
